@@ -49,6 +49,9 @@ pub struct Graph {
     /// symmetric process-vector family: representative = sort digits (only for family "vec")
     #[serde(default)]
     pub rep: Vec<u32>,
+    /// formula graphs: states with s % m == r are outside the boundary ([m, r]); empty = everything inside
+    #[serde(default)]
+    pub inb_mod: Vec<u32>,
 }
 
 #[derive(Clone)]
@@ -112,6 +115,22 @@ impl TableModel {
                 v.push(if y + 1 < h { ((y + 1) * w + x + 1) as u32 } else { 0 });
                 v
             }
+            // w x h grid plus f out-of-boundary successors (node n) per state
+            "fringed" => {
+                if s == g.n {
+                    return vec![];
+                }
+                let (w, h, f) = (g.params[0], g.params[1], g.params[2]);
+                let i = (s - 1) as i64;
+                let (x, y) = (i % w, i / w);
+                let mut v = vec![];
+                v.push(if x + 1 < w { (y * w + x + 1 + 1) as u32 } else { 0 });
+                v.push(if y + 1 < h { ((y + 1) * w + x + 1) as u32 } else { 0 });
+                for _ in 0..f {
+                    v.push(g.n);
+                }
+                v
+            }
             // binary tree (heap numbering) with n nodes
             "tree" => {
                 let n = g.n as i64;
@@ -141,13 +160,22 @@ impl TableModel {
                     ((2 * i + 1) % 4_000_000_007u64) as u32 + 1,
                 ]
             }
+            // effectively unbounded chain: exactly one successor per state
+            "unbounded_chain" => vec![(s % 4_000_000_000u32) + 1],
             f => panic!("unknown family {f}"),
         }
     }
     pub fn inb(&self, s: u32) -> bool {
         let g = &self.g;
+        if g.family == "fringed" {
+            return s < g.n;
+        }
         if g.inb.is_empty() {
-            true
+            if g.inb_mod.len() == 2 {
+                s % g.inb_mod[0] != g.inb_mod[1]
+            } else {
+                true
+            }
         } else {
             g.inb[(s - 1) as usize]
         }
@@ -261,6 +289,9 @@ pub struct Cfg {
     /// simulation only: run a second time with the same seed and record its chooser log too
     #[serde(default)]
     pub replay_check: bool,
+    /// the run is expected to be ended by its timeout (echoed for the judge)
+    #[serde(default)]
+    pub expect_timeout: bool,
 }
 
 pub fn finish_of(f: &Finish) -> HasDiscoveries {
@@ -657,7 +688,7 @@ pub fn main_matches(out: &str) {
                 .map(|(i, k)| PropSpec { kind: kinds[*k].to_string(), name: names[i].to_string(), sat: vec![], mode: "all".into(), m: 0, r: 0 })
                 .collect();
             let g = Graph { id: "m".into(), family: "table".into(), n: 1, init: vec![1], succ: vec![vec![]], inb: vec![true],
-                            props: props.clone(), params: vec![], poison: 0, rep: vec![] };
+                            props: props.clone(), params: vec![], poison: 0, rep: vec![], inb_mod: vec![] };
             let model = TableModel::new(g);
             let plist = model.properties();
             for dmask in 0..(1u32 << n) {
